@@ -225,7 +225,9 @@ type c06gen struct {
 	sb strings.Builder
 }
 
-func (g *c06gen) sfx() string { return []string{"", "", " Z", " M", " ZM", "Z", "M", "ZM"}[g.r.Intn(8)] }
+func (g *c06gen) sfx() string {
+	return []string{"", "", " Z", " M", " ZM", "Z", "M", "ZM"}[g.r.Intn(8)]
+}
 
 func (g *c06gen) coord(n int) string {
 	parts := make([]string, n)
@@ -619,9 +621,9 @@ func c06RawReplay(c *fw.Ctx, raw []byte) { c06Check(c, string(raw), "replay", ""
 func init() {
 	n := len(c06Tokens)
 	fw.Register(&fw.Monitor{
-		ID:    "C06",
-		Title: "WKT parser is total and accepts only consistent geometries",
-		Rule: "wkt.Unmarshal on (i) every token sequence of length 1..4 (thorough: ..5) over a 37-token alphabet (28 keywords with/without Z/M/ZM, EMPTY, parentheses, comma, number groups of arity 1..5), (ii) grammar-guided random derivations to depth 8 mixing suffixes of collections and members, (iii) valid text with exactly one defect injected (mixed-dimension coordinate or member, unclosed ring, ring <4 points, one-point linestring, point with 1 or >4 ordinates) which must be rejected, (iv) mutations, splices, truncations of valid text and raw bytes incl. NUL/high-bit/newlines. Monitors: any panic (each internal assertion is one), (nil,nil), rendering of the error message, WF, one consistent layout through the whole tree, linestring/ring size and closure, re-encode->parse equality. distinct_nontrivial = distinct accepted shape signatures + distinct error kinds",
+		ID:     "C06",
+		Title:  "WKT parser is total and accepts only consistent geometries",
+		Rule:   "wkt.Unmarshal on (i) every token sequence of length 1..4 (thorough: ..5) over a 37-token alphabet (28 keywords with/without Z/M/ZM, EMPTY, parentheses, comma, number groups of arity 1..5), (ii) grammar-guided random derivations to depth 8 mixing suffixes of collections and members, (iii) valid text with exactly one defect injected (mixed-dimension coordinate or member, unclosed ring, ring <4 points, one-point linestring, point with 1 or >4 ordinates) which must be rejected, (iv) mutations, splices, truncations of valid text and raw bytes incl. NUL/high-bit/newlines. Monitors: any panic (each internal assertion is one), (nil,nil), rendering of the error message, WF, one consistent layout through the whole tree, linestring/ring size and closure, re-encode->parse equality. distinct_nontrivial = distinct accepted shape signatures + distinct error kinds",
 		Assume: []string{"speller in harness/ref produces the defect texts; the consistency monitor is written from the property statement"},
 		Classes: []fw.Class{
 			{Name: "tokens-1", Quick: n, Thorough: n, Run: c06Seq(1), Exhaustive: "every token sequence of length 1"},
